@@ -180,6 +180,28 @@ def _i32(v):
     return Int(v - (1 << 32) if v >= (1 << 31) else v, 32, True)
 
 
+def _u32(v):
+    return Int(v & 0xFFFFFFFF, 32, False)
+
+
+def m_string_merge(it, a, ty, callee):
+    """string::merge: the bytes must be valid UTF-8 (otherwise DecodeError and the field is left empty)"""
+    wt, value, buf, ctx = a
+    r = _take_len_delimited(it, wt, buf)
+    if isinstance(r, Adt):
+        return r
+    payload, rest, p = r
+    try:
+        bytes(payload).decode('utf-8')
+    except UnicodeDecodeError:
+        it.store(value, Seq((), 'vec'))
+        _set_buf(it, p, rest)
+        return _err('invalid string value: data is not UTF-8 encoded')
+    it.store(value, Seq([Int(b, 8) for b in payload], 'vec'))
+    _set_buf(it, p, rest)
+    return res_ok(UNIT)
+
+
 def m_message_merge_repeated(it, a, ty, callee):
     wt, values, buf, ctx = a
     r = _take_len_delimited(it, wt, buf)
@@ -355,13 +377,19 @@ def m_encode_to_vec(it, a, ty, callee):
 
 def install(it):
     A = it.add_model
-    P = r'<protocol::libp2p::bitswap::schema::bitswap::\w+(?:::\w+)* as prost::Message>'
+    P = r'<protocol::libp2p::(?:bitswap::schema::bitswap|kademlia::schema::kademlia)::\w+(?:::\w+)* as prost::Message>'
     A(P + r'::decode::<.*>', m_decode)
     A(P + r'::encode_to_vec', m_encode_to_vec)
     A(r'prost::encoding::bytes::merge::<.*>', m_bytes_merge)
     A(r'prost::encoding::bytes::merge_repeated::<.*>', m_bytes_merge_repeated)
     A(r'prost::encoding::int32::merge::<.*>', _varint_merge(_i32))
     A(r'prost::encoding::bool::merge::<.*>', _varint_merge(lambda v: v != 0))
+    A(r'prost::encoding::uint32::merge::<.*>', _varint_merge(_u32))
+    A(r'prost::encoding::string::merge::<.*>', m_string_merge)
+    A(r'prost::encoding::string::encode::<.*>', m_bytes_encode)
+    A(r'prost::encoding::string::encoded_len', m_bytes_encoded_len)
+    A(r'prost::encoding::uint32::encode::<.*>', m_varint_encode)
+    A(r'prost::encoding::uint32::encoded_len', m_varint_encoded_len)
     A(r'prost::encoding::message::merge_repeated::<.*>', m_message_merge_repeated)
     A(r'prost::encoding::message::merge::<.*>', m_message_merge)
     A(r'prost::encoding::skip_field::<.*>', m_skip_field)
@@ -370,8 +398,8 @@ def install(it):
     A(r'prost::encoding::bytes::encode_repeated::<.*>', m_bytes_encode_repeated)
     A(r'prost::encoding::(int32|bool)::encode::<.*>', m_varint_encode)
     A(r'prost::encoding::message::encode::<.*>', m_message_encode)
-    A(r'prost::encoding::bytes::encoded_len::<.*>', m_bytes_encoded_len)
-    A(r'prost::encoding::bytes::encoded_len_repeated::<.*>', m_bytes_encoded_len_repeated)
+    A(r'prost::encoding::bytes::encoded_len(::<.*>)?', m_bytes_encoded_len)
+    A(r'prost::encoding::bytes::encoded_len_repeated(::<.*>)?', m_bytes_encoded_len_repeated)
     A(r'prost::encoding::(int32|bool)::encoded_len', m_varint_encoded_len)
     A(r'prost::encoding::message::encoded_len::<.*>', m_message_encoded_len)
     A(r'prost::encoding::message::encoded_len_repeated::<.*>', m_message_encoded_len_repeated)
